@@ -70,6 +70,17 @@ def install(reg, src):
     for f in ["sin", "cos", "tan", "exp", "log", "sqrt", "abs_", "tanh", "sinh", "cosh"]:
         reg.mark_inline(f"optyx.core.functions:{f}")
 
+    def no_new_vars(c, sp, res, sources):
+        """G3: every variable of the result occurs in one of the sources.  Proved at the arbitrary name of the path; when a
+        contract is applied the fact is registered for every name the caller reasons about."""
+        from .problem_c import NM, forall_name
+        gen = lambda nm: z3.Implies(sp.occ(res, nm), z3.Or(*[sp.occ(s_, nm) for s_ in sources]) if sources else z3.BoolVal(False))
+        if c.verifying:
+            return gen(NM(c.ip))
+        forall_name(c.ip, gen)
+        return z3.BoolVal(True)
+    reg.no_new_vars = no_new_vars
+
     # ------------------------------------------------------------------ simplifiers
     def simp2(name, combine, zero_rule, domain=None):
         @reg.contract(f"{M}:{name}", props=["C02", "C17", "C03"])
@@ -85,6 +96,7 @@ def install(reg, src):
             c.ensures("den", lambda res: z3.Implies(guard, sp.den(res, sp.E, sp.PVX) == combine(sp, dl, dr)))
             if zero_rule is not None:
                 c.ensures("zero", lambda res: z3.Implies(zero_rule(sp.is_zero(l), sp.is_zero(r)), sp.is_zero(res)))
+            c.ensures("vars", lambda res: no_new_vars(c, sp, res, [l, r]))
         return _
 
     simp2("_simplify_add", lambda sp, a, b: a + b, lambda zl, zr: z3.And(zl, zr))
@@ -105,6 +117,7 @@ def install(reg, src):
         c.ensures("wf", lambda res: sp.wf(res))
         c.ensures("den", lambda res: sp.den(res, sp.E, sp.PVX) == -sp.den(e, sp.E, sp.PVX))
         c.ensures("zero", lambda res: z3.Implies(sp.is_zero(e), sp.is_zero(res)))
+        c.ensures("vars", lambda res: no_new_vars(c, sp, res, [e]))
 
     # ------------------------------------------------------------------ gradient family
     def grad_contract(c, sp, e, wrt):
@@ -116,6 +129,7 @@ def install(reg, src):
         c.ensures("G1", lambda res: z3.Implies(sp.reg(e, w, sp.E, sp.PVX), sp.den(res, sp.E, sp.PVX) == sp.dv(e, w, sp.E, sp.PVX)))
         c.ensures("G2", lambda res: z3.Implies(z3.Not(sp.occ(e, w)), sp.is_zero(res)))
         c.ensures("wf", lambda res: sp.wf(res))
+        c.ensures("G3", lambda res: no_new_vars(c, sp, res, [e]))
         return w
 
     cases = scalar_node_cases(src)
@@ -167,6 +181,7 @@ def install(reg, src):
 
 # ======================================================================================= registered vector rules
 def install_rules(reg, src):
+    from .problem_c import NM as NM_
     from .seqtheory import (OCCV, REGALL, VLEN, ELEMV, ELEME, DENV, DVV, register_vector, psum, add_index)
     from .vecspec import dv_array, FV
     R_ = f"{M}:_register_vector_gradient_rules."
@@ -197,8 +212,16 @@ def install_rules(reg, src):
                 regs = z3.And(regs, extra_regall(st.i))
             return [z3.Implies(regs, sp.den(res) == sp.S.PSUM(D, st.i)),
                     z3.Implies(z3.Not(OCCV(v, w, st.i)), sp.is_zero(res)),
-                    sp.wf(res)]
+                    sp.wf(res), vars_so_far(sp, res, [v], st.i)]
         return inv
+
+    def vars_so_far(sp, res, vecs, i):
+        """G3 inside an accumulating loop: every variable of the partial result occurs in one of the elements visited so far."""
+        from .problem_c import NM
+        nm = NM(sp.ip)
+        for v_ in vecs:
+            register_vector(sp, v_, nm)
+        return z3.Implies(sp.occ(res, nm), z3.Or(*[OCCV(v_, nm, i) for v_ in vecs]))
 
     def isnone(x):
         from pyvc.values import SOpt
@@ -257,7 +280,8 @@ def install_rules(reg, src):
             def inv(st):
                 res = st.var("result")
                 return [z3.Implies(z3.And(REGALL(v, w, sp.E, sp.PV, st.i), nrm != 0), sp.den(res) == sp.S.PSUM(D, st.i) / nrm),
-                        z3.Implies(z3.Not(OCCV(v, w, st.i)), sp.is_zero(res)), sp.wf(res)]
+                        z3.Implies(z3.Not(OCCV(v, w, st.i)), sp.is_zero(res)), sp.wf(res),
+                        z3.Implies(sp.occ(res, NM_(sp.ip)), sp.occ(e, NM_(sp.ip)))]
             c.loop(2, inv, havoc={"result": T.expr()})
 
     @reg.contract(R_ + "gradient_l1_norm", props=["C02", "C03"], cases={"vec": VK}, group="grad", rank=2)
@@ -315,7 +339,8 @@ def install_rules(reg, src):
                 res = st.var("result")
                 return [z3.Implies(z3.And(REGALL(l, w, sp.E, sp.PV, st.i), REGALL(rr, w, sp.E, sp.PV, st.i)),
                                    sp.den(res) == sp.S.PSUM(D, st.i)),
-                        z3.Implies(z3.Not(z3.Or(OCCV(l, w, st.i), OCCV(rr, w, st.i))), sp.is_zero(res)), sp.wf(res)]
+                        z3.Implies(z3.Not(z3.Or(OCCV(l, w, st.i), OCCV(rr, w, st.i))), sp.is_zero(res)), sp.wf(res),
+                        z3.Implies(sp.occ(res, NM_(sp.ip)), sp.occ(e, NM_(sp.ip)))]
             c.loop(3, inv, havoc={"result": T.expr()})
 
     # ---- QuadraticForm: double loop over a numeric matrix; contract stated, body not yet within reach
